@@ -6,7 +6,7 @@ from ..core import Ob, Refuted
 from ..nf import Undecided
 from .common import funcs_of
 from .approx import make_approx
-from .c16 import hetero_condition_ob
+from .c16 import hetero_condition_ob, link_ob
 from .c02 import coherent_diffs
 
 PROP = "C17"
@@ -605,6 +605,9 @@ def obligations(tier):
         ob.key = "moments-of-" + ob.key
         ob.group = "conditional"
         obs.append(ob)
+        lk = link_ob(cls)
+        lk.group = "conditional"
+        obs.append(lk)
         obs.append(coherence_ob(cls))
         obs.append(coherence_square_ob(cls))
     obs.append(step_logdet_ob())
@@ -629,7 +632,7 @@ def obligations(tier):
     return obs
 
 
-FLOORS = {"group:conditional": 4, "group:coherent": 4, "group:coherent-square": 4, "group:lb-quadratic": 2, "group:bound-factor": 5, "group:bound-logdet": 3, "group:quadratic-assembly": 11, "group:zero-weights": 2, "group:summary": 2}
+FLOORS = {"group:conditional": 8, "group:coherent": 4, "group:coherent-square": 4, "group:lb-quadratic": 2, "group:bound-factor": 5, "group:bound-logdet": 3, "group:quadratic-assembly": 11, "group:zero-weights": 2, "group:summary": 2}
 LEVEL = "other"
 EXPLANATION = ("PARTIAL: for all four link functions, condition_on_x has mean Mx+b and covariance AA' + A_k diag(link(Wx+w0)) A_k' (proved), and the coherence of the "
                "returned precision / log-determinant with that covariance is decided (refuted for generic Da >= Dy: known finding F10). Step link: the log-determinant term and the "
